@@ -2,14 +2,15 @@
 from .base import *
 import itertools
 
-def payload(t, k):
-    return "%02x%02x" % (t, k)
+def payload(t, k, big=False):
+    # big: longer than every record size of the index scheme (1000+k), so that the burst is split inside the frame
+    return "%02x%02x" % (t, k) + ("5a" * 2600 if big else "")
 
-def prog_open_write(t, nwrites, with_await=False, disable_buf=True):
+def prog_open_write(t, nwrites, with_await=False, disable_buf=True, big=False):
     p = ["O"]
     if disable_buf:
         p.append("B0")
-    p += ["D:" + payload(t, k) for k in range(nwrites)]
+    p += ["D:" + payload(t, k, big and k == 0) for k in range(nwrites)]
     if with_await:
         p.append("A")
     return p
